@@ -23,7 +23,7 @@ def showRelModel (oids fns : List Nat) : Option Model.RelMapFile → String
   | none => "err"
   | some rm =>
     showRelMapWith rm.magic rm.numMappings (rm.mappings.map fun m => (m.oid, m.filenode)) rm.crc
-      (oids.map (Model.getFilenode rm.mappings)) (fns.map (Model.getOID rm.mappings))
+      (oids.map (Model.relMapGetFilenode rm.mappings)) (fns.map (Model.relMapGetOID rm.mappings))
       ((Model.getEnhancedMappings Generated.Control.catalogNames rm.mappings).map fun e => (e.oid, e.filenode, e.catalogName))
 
 def relmapEval (args : List String) : String :=
@@ -118,7 +118,7 @@ def relmapGen (seed idx _size : Nat) : Case :=
 
 def relmap : Family := { name := "relmap", gen := relmapGen, eval := relmapEval, fixed := 105 }
 
-def relmapTotalModel (file : Bytes) : String := okOrPanic (Model.parseRelMapFile file)
+def relmapTotalModel (file : Bytes) : String := ctlOkOrPanic (Model.parseRelMapFile file)
 
 def relmapTotal : Family :=
   { name := "relmap_total", fixed := 4,
